@@ -127,8 +127,8 @@ def r2_all_or_nothing(ctx):
     ks = []
     for v in vs:
         lv = tr.origins(u, v.args[1])
-        ks.append({l.detail.get("name") for l in lv if l.kind == "param"})
-    R.check(ks == [{"subscribe_method_name"}, {"unsubscribe_method_name"}] or ks == [{"unsubscribe_method_name"}, {"subscribe_method_name"}], "C13.R2", "subscription:verifies-both-names", "the names verified are the subscribe and the unsubscribe name", "the names verified are %s" % ks, "%s:%d" % (u.file, u.lo))
+        ks.append({l.detail["idx"] for l in lv if l.kind == "param"})
+    R.check(ks == [{2}, {3}] or ks == [{3}, {2}], "C13.R2", "subscription:verifies-both-names", "the names verified are the subscribe and the unsubscribe name", "the names verified are %s" % ks, "%s:%d" % (u.file, u.lo))
     # register_subscription(_raw): unsubscribe registration (which verifies both) dominates the subscribe insertion
     for nm in ("register_subscription", "register_subscription_raw"):
         b = F.one(r"^jsonrpsee_core::server::rpc_module::RpcModule::<Context>::%s$" % nm)
@@ -140,7 +140,7 @@ def r2_all_or_nothing(ctx):
         R.check(ok and cont is not None and b.dominates(cont, vi[0].bb), "C13.R2", "%s:order" % nm, "the subscribe name is inserted only after both names were verified and the unsubscribe method registered", "%s inserts the subscribe method without the successful verification of both names" % nm, "%s:%d" % (b.file, b.lo))
         if ok:
             l1 = tr.origins(b, vi[0].args[1])
-            R.check(bool(l1) and all(l.kind == "param" and l.detail.get("name") == "subscribe_method_name" for l in l1), "C13.R2", "%s:inserts-subscribe-name" % nm, "the name inserted is the subscribe name", "%s inserts %s" % (nm, [flow.leaf_str(l) for l in l1]), where(vi[0]))
+            R.check(bool(l1) and all(l.kind == "param" and l.detail["idx"] == 2 for l in l1), "C13.R2", "%s:inserts-subscribe-name" % nm, "the name inserted is the subscribe name", "%s inserts %s" % (nm, [flow.leaf_str(l) for l in l1]), where(vi[0]))
 
 
 def r3_copy_on_write(ctx):
@@ -259,7 +259,7 @@ def r4_dispatch_and_remove(ctx):
         lg = tr.origins(al, g[0].args[1])
         li = tr.origins(al, i[0].args[1])
         lval = tr.origins(al, i[0].args[2])
-        ok = all(x.kind == "param" and x.detail.get("name") == "existing_method" for x in lg) and all(x.kind == "param" and x.detail.get("name") == "alias" for x in li) and any(x.kind == "call" and x.detail["bb"] == g[0].bb for x in lval)
+        ok = all(x.kind == "param" and x.detail["idx"] == 3 for x in lg) and all(x.kind == "param" and x.detail["idx"] == 2 for x in li) and any(x.kind == "call" and x.detail["bb"] == g[0].bb for x in lval)
     R.check(ok, "C13.R4", "alias:binds-existing-handler", "alias -> the handler currently bound to existing_method", "register_alias does not bind `alias` to the handler looked up under `existing_method`", "%s:%d" % (al.file, al.lo))
 
 
